@@ -52,7 +52,7 @@ SAMPLES = {
 CANONICAL = {   # spellings that are fixed points of xsdata's strict type test (for C13)
     "string": ["abc", "x y", "Hello", "é", "007", "00501", "+2", "1.", "1e3", "0x1F", "TRUE", "P", "12:00", "2001-13-01"], "int": ["0", "-12", "2147483647"], "integer": ["0", "-1"], "decimal": ["1.5", "-0.001"],
     "double": ["1.5", "-2.25"], "boolean": ["true", "false"], "date": ["2001-10-26", "2001-10-26Z"], "dateTime": ["2001-10-26T21:32:52"],
-    "time": ["21:32:52"], "duration": ["P1Y", "PT1.5S"], "gYear": ["2001"],
+    "time": ["21:32:52"], "duration": ["P1Y", "PT1.5S"], "gYear": ["2001"], "hexBinary": ["0FB7"],
 }
 
 
@@ -92,6 +92,7 @@ class Opts:
         self.anon_root = True
         self.name_pool = None         # override of the hostile name alphabet
         self.type_suffix = "Type"
+        self.components = False       # global element refs, substitution groups, named groups, attribute groups
         self.global_names = False     # element names are unique across the whole schema
         self.builtins = None          # override of the builtin simple types
         self.__dict__.update(kw)
@@ -197,6 +198,40 @@ class _B:
         t = tr.get("anon") or self.types[tr["t"]]
         return t["k"] == "list"
 
+    def components(self):
+        """Global declarations that content models may refer to: elements (some of them members of a substitution group),
+        named model groups and attribute groups.  Their names are upper-cased so they never meet a local name."""
+        d = self.d
+        pool = [n.capitalize() + "G" for n in self.names()]
+        taken = set()
+        for _ in range(d(st.integers(0, 3))):
+            nm = self.fresh(pool, taken)
+            if d(st.integers(0, 2)) == 0:
+                tn = self.fresh([n + self.o.type_suffix for n in self.names()], self.used_types)
+                kids = set()
+                self.types[tn] = {"k": "complex", "content": {"k": "sequence", "min": 1, "max": 1, "items": [self.simple_element(kids) for _ in range(d(st.integers(1, 2)))]},
+                                  "attrs": [], "mixed": False, "base": None, "abstract": False, "any_attr": False, "simple": None}
+                tr = {"t": tn}
+            else:
+                tr = {"b": d(st.sampled_from(self.o.builtins or BUILTINS))}
+            self.elements[nm] = {"k": "element", "name": nm, "type": tr, "min": 1, "max": 1, "nillable": False, "form": None, "global": True}
+            if d(st.integers(0, 2)) == 0:
+                alt = self.fresh([nm + "Alt"], taken)
+                self.elements[alt] = dict(self.elements[nm], name=alt, subst=nm)
+        used = set()            # one pool for all groups: a type may refer to several of them
+        for _ in range(d(st.integers(0, 2))):
+            nm = self.fresh([n + "Group" for n in self.names()], taken)
+            self.groups[nm] = {"k": d(st.sampled_from(["sequence", "choice"])), "min": 1, "max": 1,
+                               "items": [dict(self.simple_element(used), name=self.fresh([x + "InG" for x in self.names()], used)) for _ in range(d(st.integers(1, 3)))]}
+        for _ in range(d(st.integers(0, 2))):
+            nm = self.fresh([n + "Attrs" for n in self.names()], taken)
+            used = set()
+            self.attr_groups[nm] = [{"name": self.fresh([x + "A" for x in self.names()], used), "type": {"b": d(st.sampled_from(self.o.builtins or BUILTINS))},
+                                     "use": d(st.sampled_from(["optional", "required"])), "form": None} for _ in range(d(st.integers(1, 2)))]
+            for a in self.attr_groups[nm]:
+                if a["type"]["b"] == "QName":
+                    a["type"] = {"b": "string"}
+
     def particle(self, depth, used, top=False, optional_ctx=False):
         d, o = self.d, self.o
         kind = d(st.sampled_from(["sequence", "sequence", "choice"] + (["all"] if top and o.all_groups and not self.in_mixed else [])))
@@ -216,6 +251,24 @@ class _B:
             sub = d(st.integers(0, 7))
             if (sub == 0 or (sub == 2 and kind == "choice" and self.plain)) and depth < 2 and kind != "all":
                 p["items"].append(self.particle(depth + 1, used, optional_ctx=optional_ctx))
+            elif sub == 3 and kind != "all" and not self.in_mixed and not self.uniform_forms and [g for g in self.elements.values() if g.get("global") and not g.get("subst")]:
+                g = d(st.sampled_from(sorted(g["name"] for g in self.elements.values() if g.get("global") and not g.get("subst"))))
+                key = "ref:" + g
+                if key in used:
+                    p["items"].append(self.element_decl(depth, used, in_all=False, optional_ctx=optional_ctx))
+                else:
+                    used.add(key)
+                    p["items"].append({"k": "element", "ref": g, "min": 1 if self.plain else d(st.sampled_from([1, 1, 0])),
+                                       "max": 1 if self.plain else d(st.sampled_from([1, 1, 3, None]))})
+            elif sub == 4 and kind != "all" and not self.in_mixed and self.groups and depth < 2:
+                g = d(st.sampled_from(sorted(self.groups)))
+                key = "group:" + g
+                if key in used:
+                    p["items"].append(self.element_decl(depth, used, in_all=False, optional_ctx=optional_ctx))
+                else:
+                    used.add(key)
+                    p["items"].append({"k": "group", "ref": g, "min": 1 if self.plain else d(st.sampled_from([1, 1, 0])),
+                                       "max": 1 if self.plain else d(st.sampled_from([1, 1, 2, None]))})
             elif sub == 1 and o.wildcards and not self.in_mixed and kind == "sequence" and i == n - 1 and top and p["max"] == 1:
                 p["items"].append({"k": "any", "ns": "##other", "min": d(st.sampled_from([0, 1])), "max": d(st.sampled_from([1, 2])), "pc": "lax"})
             else:
@@ -299,6 +352,8 @@ class _B:
         d, o = self.d, self.o
         ct = {"k": "complex", "content": None, "attrs": self.attrs(), "mixed": False, "base": None, "abstract": False,
               "any_attr": o.wildcards and d(st.integers(0, 6)) == 0, "simple": None}
+        if self.attr_groups and d(st.integers(0, 3)) == 0:
+            ct["attr_groups"] = [d(st.sampled_from(sorted(self.attr_groups)))]
         shape = d(st.integers(0, 9))
         if shape == 0:
             ct["simple"] = d(st.sampled_from(["string", "decimal", "int", "date"]))
@@ -355,7 +410,7 @@ def local_elements(ct):
 
     def walk(p):
         for it in p["items"]:
-            if it["k"] == "element":
+            if it["k"] == "element" and "ref" not in it:
                 out.append(it)
                 t = it["type"].get("anon")
                 if t and t["k"] == "complex" and t.get("content"):
@@ -372,7 +427,7 @@ def _all_elements(b, ct):
 
     def walk(p):
         for it in p["items"]:
-            if it["k"] == "element":
+            if it["k"] == "element" and "ref" not in it:
                 out.append(it)
             elif it["k"] in ("sequence", "choice", "all"):
                 walk(it)
@@ -419,6 +474,8 @@ def schema_specs(draw, opts=None):
     # below a global element with an anonymous type, a qualified element inside an unqualified one is written unqualified
     # (recorded finding, same root cause as C01 inherited-namespace-disagreement): no per-element forms there
     b.uniform_forms = anon_root
+    if o.components:
+        b.components()
     root_ct = b.complex_type(0)
     if root_ct.get("simple") or root_ct["content"] is None:
         root_ct["simple"] = None
@@ -429,7 +486,7 @@ def schema_specs(draw, opts=None):
     root_name = b.fresh(b.names(), b.global_used) if o.global_names else draw(st.sampled_from(b.names()))
     b.elements[root_name] = {"k": "element", "name": root_name, "type": {"anon": root_ct} if anon_root else {"t": root_type_name},
                              "min": 1, "max": 1, "nillable": False, "form": None}
-    spec.update(types=b.types, elements=b.elements, root=root_name, flags=b.flags)
+    spec.update(types=b.types, elements=b.elements, root=root_name, flags=b.flags, groups=b.groups, attr_groups=b.attr_groups)
     return spec
 
 
@@ -496,7 +553,12 @@ def render_xsd(spec):
             out.append(s + f' type="{tref(a["type"])}"/>')
 
     def element(e, ind, top=False):
+        if "ref" in e:
+            out.append(f'{ind}<xs:element ref="{pref}{_esc(e["ref"])}"{occurs(e)}/>')
+            return
         s = f'{ind}<xs:element name="{_esc(e["name"])}"'
+        if top and e.get("subst"):
+            s += f' substitutionGroup="{pref}{_esc(e["subst"])}"'
         if not top:
             s += occurs(e)
             if e.get("form") is not None:
@@ -523,6 +585,9 @@ def render_xsd(spec):
         if p["k"] == "any":
             out.append(f'{ind}<xs:any namespace="{p["ns"]}" processContents="{p["pc"]}"{occurs(p)}/>')
             return
+        if p["k"] == "group":
+            out.append(f'{ind}<xs:group ref="{pref}{_esc(p["ref"])}"{occurs(p)}/>')
+            return
         out.append(f'{ind}<xs:{p["k"]}{occurs(p)}>')
         for it in p["items"]:
             particle(it, ind + "  ")
@@ -537,6 +602,8 @@ def render_xsd(spec):
             out.append(f'{inner}  <xs:extension base="xs:{t["simple"]}">')
             for a in t["attrs"]:
                 attr(a, inner + "    ")
+            for g in t.get("attr_groups", ()):
+                out.append(f'{inner}    <xs:attributeGroup ref="{pref}{_esc(g)}"/>')
             if t.get("any_attr"):
                 out.append(f'{inner}    <xs:anyAttribute namespace="##other" processContents="lax"/>')
             out.append(f"{inner}  </xs:extension>")
@@ -548,6 +615,8 @@ def render_xsd(spec):
                 particle(t["content"], inner + "    ")
             for a in t["attrs"]:
                 attr(a, inner + "    ")
+            for g in t.get("attr_groups", ()):
+                out.append(f'{inner}    <xs:attributeGroup ref="{pref}{_esc(g)}"/>')
             out.append(f"{inner}  </xs:extension>")
             out.append(f"{inner}</xs:complexContent>")
         else:
@@ -555,6 +624,8 @@ def render_xsd(spec):
                 particle(t["content"], inner)
             for a in t["attrs"]:
                 attr(a, inner)
+            for g in t.get("attr_groups", ()):
+                out.append(f'{inner}<xs:attributeGroup ref="{pref}{_esc(g)}"/>')
             if t.get("any_attr"):
                 out.append(f'{inner}<xs:anyAttribute namespace="##other" processContents="lax"/>')
         out.append(f"{ind}</xs:complexType>")
@@ -566,6 +637,18 @@ def render_xsd(spec):
             complex_(t, name)
         else:
             simple(t, name)
+    for name, g in spec.get("groups", {}).items():
+        out.append(f'  <xs:group name="{_esc(name)}">')
+        out.append(f'    <xs:{g["k"]}>')
+        for it in g["items"]:
+            particle(it, "      ")
+        out.append(f'    </xs:{g["k"]}>')
+        out.append("  </xs:group>")
+    for name, attrs in spec.get("attr_groups", {}).items():
+        out.append(f'  <xs:attributeGroup name="{_esc(name)}">')
+        for a in attrs:
+            attr(a, "    ")
+        out.append("  </xs:attributeGroup>")
     out.append("</xs:schema>")
     return "\n".join(out) + "\n"
 
@@ -574,8 +657,22 @@ def render_xsd(spec):
 # instances valid by construction
 
 
+def expand(spec, p):
+    """A particle with its reference resolved: a global element (marked `global`), or the content of a named group, under
+    the occurrence written at the reference."""
+    if p["k"] == "element" and "ref" in p:
+        return dict(spec["elements"][p["ref"]], min=p["min"], max=p["max"])
+    if p["k"] == "group":
+        return dict(spec["groups"][p["ref"]], min=p["min"], max=p["max"])
+    return p
+
+
+def substitutes(spec, name):
+    return sorted(n for n, e in spec["elements"].items() if e.get("subst") == name)
+
+
 def element_ns(spec, e, top=False):
-    if top:
+    if top or e.get("global"):
         return spec["tns"]
     form = e.get("form")
     qualified = spec["efd"] if form is None else form
@@ -607,6 +704,8 @@ def all_attrs(spec, ct):
     out = []
     for c in reversed(chain):
         out += c["attrs"]
+        for g in c.get("attr_groups", ()):
+            out += spec["attr_groups"][g]
     return out
 
 
@@ -707,11 +806,15 @@ class InstanceGen:
 
     def particle(self, parent, p, depth, mixed):
         d, spec = self.d, self.spec
+        p = expand(spec, p)
         if p["k"] == "element":
             for _ in range(self.occurrences(p, depth)):
                 self.budget -= 1
-                child = etree.SubElement(parent, qn(element_ns(spec, p), p["name"]))
-                self.fill(child, p, depth + 1)
+                q = p
+                if p.get("global") and substitutes(spec, p["name"]) and d(st.booleans()):
+                    q = dict(spec["elements"][d(st.sampled_from(substitutes(spec, p["name"])))], min=p["min"], max=p["max"])
+                child = etree.SubElement(parent, qn(element_ns(spec, q), q["name"]))
+                self.fill(child, q, depth + 1)
                 if mixed and d(st.integers(0, 2)) == 0:
                     child.tail = " mixed text "
             return
@@ -748,8 +851,12 @@ def declared_children(spec, ct):
     out = {}
 
     def walk(p):
+        p = expand(spec, p)
         if p["k"] == "element":
             out[qn(element_ns(spec, p), p["name"])] = p
+            if p.get("global"):
+                for alt in substitutes(spec, p["name"]):
+                    out[qn(spec["tns"], alt)] = dict(spec["elements"][alt], min=p["min"], max=p["max"])
         elif p["k"] in ("sequence", "choice", "all"):
             for it in p["items"]:
                 walk(it)
@@ -926,6 +1033,13 @@ def features(spec):
         f.add("unqualified-locals")
 
     def walk_p(p):
+        if p["k"] == "element" and "ref" in p:
+            f.add("element-ref")
+            if substitutes(spec, p["ref"]):
+                f.add("substitution-group")
+        if p["k"] == "group":
+            f.add("named-group")
+        p = expand(spec, p)
         if p["k"] == "element":
             if p.get("max", 1) != 1:
                 f.add("repeating-element")
@@ -967,6 +1081,8 @@ def features(spec):
             f.add("simple-content")
         if t.get("any_attr"):
             f.add("anyAttribute")
+        if t.get("attr_groups"):
+            f.add("attribute-group")
         for a in t["attrs"]:
             f.add("attribute")
             if "default" in a or "fixed" in a:
